@@ -197,9 +197,19 @@ class H2Protocol:
         except (h2.exceptions.StreamClosedError, KeyError, h2.exceptions.ProtocolError):
             # Stream or connection has closed whilst waiting to send
             # data, not a problem - just force close it.
-            await self.stream_buffers[stream_id].close()
-            del self.stream_buffers[stream_id]
-            self.priority.remove_stream(stream_id)
+            buffer = self.stream_buffers.pop(stream_id, None)
+            if buffer is not None:
+                await buffer.close()
+            try:
+                self.priority.remove_stream(stream_id)
+            except priority.MissingStreamError:
+                # The tree can keep scheduling a stream it no longer
+                # tracks (after a stream was made dependent on one of
+                # its own dependents). Priorities are advisory, so
+                # start again without them.
+                self.priority = priority.PriorityTree()
+                for buffered_stream_id in self.stream_buffers:
+                    self.priority.insert_stream(buffered_stream_id)
 
     async def handle(self, event: Event) -> None:
         if isinstance(event, RawData):
